@@ -173,6 +173,18 @@ fn c01_guard_drop() {
     c01_guard_drop_body(kani::any(), kani::any());
 }
 
+// The same contract when the guard is dropped BY UNWINDING: Kani does not unwind, but the only way Drop can tell a panic exit from a
+// normal exit is `std::thread::panicking()`; with that stubbed to `true` the contract of Drop must hold unchanged
+// ("... or by a panic unwinding through it restores the recorder that was in scope before").
+#[cfg(kani)]
+fn panicking_true() -> bool { true }
+#[cfg(kani)]
+#[kani::proof]
+#[kani::stub(std::thread::panicking, panicking_true)]
+fn c01_guard_drop_unwinding() {
+    c01_guard_drop_body(kani::any(), kani::any());
+}
+
 // set_default_local_recorder(r): while the guard lives LOCAL == r and emissions reach r exactly once each;
 // dropping the guard restores the recorder that was in scope before (and emissions reach that one again).
 pub fn c01_set_default_local_recorder_body(pre: u8) {
